@@ -18,7 +18,11 @@ func conversionCollectionToList(ety cty.Type, conv conversion) conversion {
 			// for a set containing unknown values) then our result must be
 			// an unknown list, because we can't predict how many elements
 			// the resulting list should have.
-			return cty.UnknownVal(cty.List(val.Type().ElementType())), nil
+			// The elements are still to be converted, so the result has
+			// the element type the conversion produces rather than the
+			// source's.
+			retEty := dynamicReplace(val.Type().ElementType(), ety.WithoutOptionalAttributesDeep())
+			return cty.UnknownVal(cty.List(retEty)), nil
 		}
 
 		elems := make([]cty.Value, 0, val.LengthInt())
